@@ -132,7 +132,7 @@ PROPS = {
         "rule": HISTORY_RULE + "non-trivial = the history changed the structure of a tree at least once (leaf count or depth changed "
                 "between two commits, an overflow run was written, or the file grew) as measured on the file by the independent parser.",
         "run": generic(sanitizers=('asan',), thorough_profiles=("verif-rel",), quick_profiles=("verif-rel",)),
-        "floors": {"any": {"histories_root-directory": 60, "histories_bucket-directory": 300, "commits": 100, "leaf_count_increases(splits)": 5, "leaf_count_decreases(merges)": 5,
+        "floors": {"any": {"commits_made_while_a_reader_pinned_an_older_snapshot": 1000, "histories_root-directory": 60, "histories_bucket-directory": 300, "commits": 100, "leaf_count_increases(splits)": 5, "leaf_count_decreases(merges)": 5,
                            "depth_decreases(root_collapse)": 1, "depth_increases": 1, "reopens": 10, "rollbacks": 5,
                            "commits_with_overflow_runs": 5}},
         "assumptions": ["the reference model (harness/src/model.rs) is the intended sequential semantics of the public API",
@@ -143,7 +143,7 @@ PROPS = {
         "rule": HISTORY_RULE + "After every successful commit the file bytes are parsed by the independent checker (page roles, "
                 "conservation, ordering, separators, extents) and DB::check() is called. non-trivial = same structural-change rule as C01.",
         "run": generic(sanitizers=('asan',), thorough_profiles=("verif-rel",), quick_profiles=("verif-rel",)),
-        "floors": {"any": {"fileck_runs": 100, "pages_classified": 1000, "txs_with_2+_bucket_deletions": 3,
+        "floors": {"any": {"commits_made_while_a_reader_pinned_an_older_snapshot": 1000, "fileck_runs": 100, "pages_classified": 1000, "txs_with_2+_bucket_deletions": 3,
                            "txs_deleting_nested_then_ancestor": 3, "leaf_count_decreases(merges)": 5}},
         "assumptions": ["harness/src/fileck.rs encodes the pinned on-disk layout correctly (it is also cross-checked against golden files in C15)"],
     },
@@ -225,7 +225,7 @@ PROPS = {
                 "the retried transaction being read back in full through the same handle. "
                 "non-trivial = history with at least one rolled-back transaction whose before/after state was compared.",
         "run": generic(thorough_profiles=("verif-rel",), env=SHIM_ENV, pre=build_shim),
-        "floors": {"any": {"rollbacks_checked(file bytes + shared state)": 50, "twin_runs": 20, "read_only_mutator_calls": 500,
+        "floors": {"any": {"opens_of_a_database_with_one_unusable_header_page(bytes compared)": 200, "rollbacks_checked(file bytes + shared state)": 50, "twin_runs": 20, "read_only_mutator_calls": 500,
                            "error_returning_calls_followed_by_full_verification": 50,
                            "commits_failed_by_injected_write_error_and_checked_for_traces": 20,
                            "failed_commits_that_had_extended_the_file(write_and_mmap_faults)": 50, "error_only_transactions_compared_with_an_empty_commit": 100}},
@@ -352,7 +352,7 @@ PROPS = {
                 "== committed increments == increment keys; no counter value read by two committed increments; every thread finishes: a state in which "
                 "every unfinished worker sits in a futex wait is a deadlock; a reader found blocked while no writer is extending the file is a violation.",
         "run": generic(sanitizers=('tsan',), thorough_profiles=(), nshards=8, timeout_quick=1800, env=SHIM_ENV, pre=build_shim),
-        "floors": {"any": {"executions": 1000, "executions_starting_after_a_failed_remap(file_long,map_short)": 100, "preemptions": 1000, "committed_increments": 3000, "workers_found_blocked_on_a_lock": 50,
+        "floors": {"any": {"executions_with_a_client_panic_inside_an_open_write_transaction": 200, "executions": 1000, "executions_starting_after_a_failed_remap(file_long,map_short)": 100, "preemptions": 1000, "committed_increments": 3000, "workers_found_blocked_on_a_lock": 50,
                            "free_running_executions": 100}},
         "assumptions": ["each thread holds at most one transaction", "deadlock = every live worker asleep (state S) in a futex wait with no event for 200 ms (baton) / 1 s (free running)"],
     },
